@@ -41,14 +41,16 @@ def _audit(event, args):
 
 def plan(tier, seed):
     if tier == 'quick':
-        return [{'layouts': 2, 'depth3': 600, 'name': 'fs%d' % k} for k in range(8)]
-    return [{'layouts': 8, 'depth3': 100000, 'name': 'fs%d' % k} for k in range(16)]
+        return [{'layouts': 2, 'depth3': 600, 'name': 'fs%d' % k} for k in range(8)] + \
+               [{'reuse': True, 'layouts': 2, 'sequences': 150, 'name': 'reuse%d' % k} for k in range(2)]
+    return [{'layouts': 8, 'depth3': 100000, 'name': 'fs%d' % k} for k in range(16)] + \
+           [{'reuse': True, 'layouts': 6, 'sequences': 3000, 'name': 'reuse%d' % k} for k in range(6)]
 
 
 def floors(tier):
     return {'evaluations': 10000, 'distinct_nontrivial': 1500, 'outside_targets_requested': 1500,
             'inside_reads_confirmed': 800, 'audit_open_events': 800, 'via_latex_to_text': 1000,
-            'histkeys:escape_kind': 6}
+            'histkeys:escape_kind': 6, 'reused_object_calls': 2000, 'reconfigurations': 500}
 
 
 def setup(rec):
@@ -150,8 +152,9 @@ def classify_escape(name, lay, base):
     return 'plain'
 
 
-def evaluate(lay, base, name, via, rec):
-    """Returns error or None."""
+def evaluate(lay, base, name, via, rec, l2t=None):
+    """Returns error or None.  With `l2t` given, that (already configured, possibly re-configured) converter
+    object is used instead of a fresh one."""
     rb = os.path.realpath(base)
     cands = [name, name + '.tex', name + '.latex']
     existing = []
@@ -163,8 +166,9 @@ def evaluate(lay, base, name, via, rec):
     outside_files = [p for p in files if not inside(rb, p)]
     inside_files = [p for p in files if inside(rb, p)]
     must_read = bool(existing) and len(files) == len(existing) and not outside_files
-    l2t = LatexNodes2Text()
-    l2t.set_tex_input_directory(base, strict_input=True)
+    if l2t is None:
+        l2t = LatexNodes2Text()
+        l2t.set_tex_input_directory(base, strict_input=True)
     del OPENED[:]
     HOOK['on'] = True
     try:
@@ -213,6 +217,22 @@ def check_case(case, rec):
         HOOK['root'] = os.path.realpath(root)
         root = os.path.realpath(root)
         lay = Layout(random.Random(case['layout_seed']), root)
+        if 'steps' in case:
+            l2t = LatexNodes2Text()
+            for (b, strict, name, via) in case['steps']:
+                b, name = b.replace('<R>', root), name.replace('<R>', root)
+                l2t.set_tex_input_directory(b, strict_input=strict)
+                if not strict:
+                    try:
+                        (l2t.read_input_file(name) if via == 'read' else l2t.latex_to_text('\\input{%s}' % name))
+                    except Exception:
+                        pass
+                    continue
+                err = evaluate(lay, b, name, via, rec, l2t=l2t)
+                if err:
+                    rec.violation(case, '%s | steps %r' % (err, case['steps']), mech='reuse')
+                    break
+            return
         base = case['base'].replace('<R>', root)
         name = case['name'].replace('<R>', root)
         cwd = os.getcwd()
@@ -229,9 +249,56 @@ def check_case(case, rec):
         shutil.rmtree(root, ignore_errors=True)
 
 
+def run_reuse(desc, rec, rng):
+    """One converter object re-configured between calls (other directory, strict off -> on): containment must
+    hold for the configuration in force at the time of each call."""
+    import random
+    for li in range(desc['layouts']):
+        root = os.path.realpath(tempfile.mkdtemp(prefix='vplc15_'))
+        HOOK['root'] = root
+        try:
+            lseed = rng.randrange(1 << 30)
+            lay = Layout(random.Random(lseed), root)
+            bases = [lay.base, os.path.join(root, lay.bname + '2'), os.path.join(root, 'other'), root,
+                     os.path.join(root, lay.bname + '-x')]
+            names = ['in', 'in.tex', 'noext', 'secret', '../secret', '../in', 'sub/deep', 'out', 'sib', 'lnk', 'ext',
+                     '../' + lay.bname + '/in', '../other/out', 'deep/d', 'both', os.path.join(root, 'secret')]
+            for si in range(desc['sequences']):
+                l2t = LatexNodes2Text()
+                steps = []
+                for _ in range(rng.randint(2, 5)):
+                    base = rng.choice(bases)
+                    strict = rng.random() < 0.7
+                    l2t.set_tex_input_directory(base, strict_input=strict)
+                    rec.monitor('reconfigurations')
+                    for _ in range(rng.randint(1, 3)):
+                        name = rng.choice(names)
+                        via = rng.choice(['read', 'l2t', 'l2t'])
+                        steps.append([base.replace(root, '<R>'), strict, name.replace(root, '<R>'), via])
+                        rec.case()
+                        rec.monitor('reused_object_calls')
+                        if not strict:
+                            # not under the property; still performed, it may leave state behind
+                            try:
+                                (l2t.read_input_file(name) if via == 'read' else l2t.latex_to_text('\\input{%s}' % name))
+                            except Exception:
+                                pass
+                            continue
+                        err = evaluate(lay, base, name, via, rec, l2t=l2t)
+                        if err:
+                            case = {'layout_seed': lseed, 'steps': steps}
+                            rec.violation(case, '%s | after re-configuring one converter object: steps %r' % (err, steps),
+                                          mech='reuse:' + err.split(' ')[0])
+                            break
+        finally:
+            shutil.rmtree(root, ignore_errors=True)
+
+
 def run_shard(desc, rec):
     import random
     rng = rng_for(desc)
+    if desc.get('reuse'):
+        return run_reuse(desc, rec, rng)
     for li in range(desc['layouts']):
         root = os.path.realpath(tempfile.mkdtemp(prefix='vplc15_'))
         HOOK['root'] = root
